@@ -205,6 +205,11 @@ def run_case(case, ctx):
                 cells = [i for i in range(len(col) - 1) if col[i] >= level > col[i + 1]]
                 if len(cells) != 1:
                     continue  # this curve does not cross exactly once inside the grid: outside the precondition
+                if any(abs(c - level) <= 1e-7 * level for c in col):
+                    # a scan point sits on the level (CLs is exactly 0.5 wherever q = 0 and CL_b = 1): every point
+                    # of that plateau solves CLs = level, the crossing cell is not unique
+                    ctx.count("grid_curve_with_a_scan_point_on_the_level_skipped", 1)
+                    continue
                 i = cells[0]
                 ok = scan[i] * (1 - 1e-9) <= L <= scan[i + 1] * (1 + 1e-9)
                 if not ok:
